@@ -25,8 +25,36 @@ pub fn hang_prone(case: &LinCase, truth: &Verdict) -> bool {
     match truth {
         Verdict::Unbounded => in_known_hang_class(case, truth),
         Verdict::Optimal { value, .. } => optimal_face_unbounded(case, value),
-        _ => false,
+        Verdict::Infeasible => integer_infeasible_with_unbounded_relaxation(case),
     }
+}
+
+/// The third instance class of the same dependency defect: a mixed-integer model with a free
+/// continuous variable that has no integer point although its continuous relaxation is feasible,
+/// and whose relaxation has an unbounded feasible region (branch and bound never gets a bounded
+/// node to close the search with). Only called for models the exact oracle proved infeasible.
+pub fn integer_infeasible_with_unbounded_relaxation(case: &LinCase) -> bool {
+    use crate::oracle::rat::{solve_lp, big};
+    if !has_free_var(case) || !case.vars.iter().any(|v| v.1.is_discrete()) {
+        return false;
+    }
+    let mut p = case.to_problem();
+    p.int = vec![false; p.n];
+    p.obj = vec![big(0.0); p.n];
+    if !matches!(solve_lp(&p), Verdict::Optimal { .. }) {
+        return false;
+    }
+    for i in 0..p.n {
+        for maximize in [false, true] {
+            let mut q = p.clone();
+            q.obj[i] = big(1.0);
+            q.maximize = maximize;
+            if matches!(solve_lp(&q), Verdict::Unbounded) {
+                return true;
+            }
+        }
+    }
+    false
 }
 
 /// true when the class is to be skipped now (enough hangs were observed in this run)
@@ -34,7 +62,7 @@ pub fn skip_hang_prone(case: &LinCase, truth: &Verdict) -> bool {
     hang_prone(case, truth) && crate::props::solvers::LEAKED.load(std::sync::atomic::Ordering::SeqCst) >= probe_limit()
 }
 
-/// Characterises the two instance classes on which the microlp dependency is known to misbehave
+/// Characterises the three instance classes on which the microlp dependency is known to misbehave
 /// (see known_findings.json). The suffix is only attached to the answers those defects produce, so
 /// any other wrong answer on the same instances, and the same answers elsewhere, stay unknown.
 pub fn microlp_class(case: &LinCase, truth: &Verdict, w: Which, ans: &Ans) -> &'static str {
@@ -54,6 +82,11 @@ pub fn microlp_class(case: &LinCase, truth: &Verdict, w: Which, ans: &Ans) -> &'
             if (matches!(ans, Ans::Hang) || node_unbounded) && in_known_hang_class(case, truth) =>
         {
             ":mixed-integer+unbounded+free-var"
+        }
+        Verdict::Infeasible
+            if (matches!(ans, Ans::Hang) || node_unbounded) && integer_infeasible_with_unbounded_relaxation(case) =>
+        {
+            ":integer-infeasible+unbounded-relaxation+free-var"
         }
         _ => "",
     }
@@ -266,6 +299,22 @@ impl Prop for C05 {
             obj: vec![-3.0, 1.0, 3.0, -2.0],
             offset: 1.0,
             sense: Sense::Max,
+        });
+        // witnesses of the known finding microlp-integer-infeasible-unbounded-relaxation (the two
+        // that answer with an error; the hanging ones are left to the generator)
+        v.push(LinCase {
+            vars: vec![("x0".into(), Dom::Real(None, None)), ("x1".into(), Dom::Bool), ("x2".into(), Dom::Bool)],
+            rows: vec![row("", &[0.0, 2.0, -2.0], R::Eq, 1.0)],
+            obj: vec![0.0, 0.0, 0.0],
+            offset: 0.0,
+            sense: Sense::Min,
+        });
+        v.push(LinCase {
+            vars: vec![("x0".into(), Dom::Real(None, None)), ("x1".into(), Dom::Bool), ("x2".into(), Dom::Bool)],
+            rows: vec![row("", &[0.0, 4.0, -2.0], R::Eq, -1.0)],
+            obj: vec![-1.0, 0.0, 4.0],
+            offset: -5.0,
+            sense: Sense::Min,
         });
         v
     }
